@@ -14,6 +14,7 @@ from common import Cvec, Cx, R, Rmat, Rvec, cfl, fl, flmat, max_rel_err
 from common import wiring_pre_build as pre_build  # noqa: E402,F401
 
 LEAN_MODULES = ["PyomaVerif.Props.C17", "PyomaVerif.Props.C17Jac", "PyomaVerif.Props.C17Vec", "PyomaVerif.Mutants.C17", "PyomaVerif.Mutants.C17Vec", "PyomaVerif.Props.WiringRun", "PyomaVerif.Props.WiringCalls", "PyomaVerif.Props.C17Table", "PyomaVerif.Mutants.C17Table", "PyomaVerif.Props.C17Cell", "PyomaVerif.Props.C12Build"]
+LEAN_MODULES = ["PyomaVerif.Props.C17", "PyomaVerif.Props.C17Jac", "PyomaVerif.Props.C17Vec", "PyomaVerif.Mutants.C17", "PyomaVerif.Mutants.C17Vec", "PyomaVerif.Props.WiringRun", "PyomaVerif.Props.WiringCalls", "PyomaVerif.Props.C17Table", "PyomaVerif.Mutants.C17Table", "PyomaVerif.Props.C17Cell", "PyomaVerif.Props.C17Stored"]
 THEOREMS = [
     # clause 1 on the function itself (Model/BuildHank.buildHank, op build_hank, stream build_hank[unc-guard]): calc_unc with a method
     # other than cov_mm never returns; a second component other than None only for cov_mm with calc_unc is True; the returned
@@ -90,6 +91,10 @@ THEOREMS = [
     # enter which block (clipped last block), fxMap = the pole map of ac2mp
     "PV.C17.C17_covFx_is_poleVar",
     "PV.C17.C17_table_cells",
+    # the two models of the Fn_cov loop (covTables / ssiPoles.fnCov) return the same tables; the table as stored by run()
+    "PV.C17Stored.covTables_cells",
+    "PV.C17Stored.covTables_eq_ssiPoles_fnCov",
+    "PV.C17Stored.C17_stored",
     "PV.C17.C17_table_index_error",
     "PV.C17.C17_table_variance",
     "PV.C17.C17_factor_column_is_vec",
